@@ -368,6 +368,22 @@ def run_build(c):
                 m.d.sync += ctr.eq(ctr + 1)
             acc = []
             k = 0
+            raws = list(enumerate(c.get("raw", [])))
+
+            def add_raws(upto=None):
+                """use the raw ports (IOPort without metadata, not known to the platform) whose position has come"""
+                from amaranth.hdl import IOPort, Instance
+                for i, (pos, width, kind) in list(raws):
+                    if upto is not None and pos != upto:
+                        continue
+                    raws.remove((i, [pos, width, kind]))
+                    port = IOPort(width, name=f"dbg{i}")
+                    if kind == "buf":
+                        m.submodules[f"dbg{i}"] = rb = io.Buffer("o", io.SingleEndedPort(port))
+                        m.d.comb += rb.o.eq(ctr)
+                    else:
+                        m.submodules[f"dbg{i}"] = Instance("DBG", ("io", "pad", port), ("i", "x", ctr[0]))
+
             for name, num, d, x in c["hist"]:
                 try:
                     val = platform.request(res_name(name), num, dir=py_dir(d), xdr=py_xdr(x))
@@ -383,6 +399,7 @@ def run_build(c):
                         continue
                     if tuple(pth) in unused:       # requested but never buffered: not a port of the design
                         continue
+                    add_raws(k)
                     buf = io.Buffer(v.direction, v)
                     m.submodules[f"b{k}"] = buf
                     k += 1
@@ -392,6 +409,8 @@ def run_build(c):
                         m.d.comb += buf.oe.eq(ctr[7])
                     if v.direction is not io.Direction.Output:
                         acc.append(buf.i)
+            raws[:] = [r for r in raws if r[1][0] >= k]      # positions past the end: after the last buffered port
+            add_raws()
             if not use_sync:
                 m.d.comb += ctr.eq(Cat(*acc).xor() if acc else 5)
             return m
@@ -422,6 +441,8 @@ def run_build(c):
 
 def _port_of(text):
     m = re.fullmatch(r"(\w+?)(?:\[(\d+)\])?", text)
+    if m is None or "__" not in m.group(1):
+        return [[-5, -5], 0, -5]         # not the name of a requested port (e.g. a raw port): never matches the model
     pth, suffix = ioport_ints(m.group(1))
     pth = pth[:2] + pth[3:]
     return [pth, suffix, -1 if m.group(2) is None else int(m.group(2))]
@@ -567,7 +588,8 @@ def coq_term(c):
         clk = -1 if c.get("default_clk") is None else c["default_clk"]
         rst = -1 if c.get("default_rst") is None else c["default_rst"]
         return (f"k_build {v} {g_tbl(c['tbl'])} {g_cm(c['conn'])} {g_hist(c['hist'])} {z(clk)} {z(rst)} "
-                f"{g_list([g_path(p) for p in c.get('unused', [])])}")
+                f"{g_list([g_path(p) for p in c.get('unused', [])])} "
+                f"{g_list([f'({z(r[0])}, {z(r[1])})' for r in c.get('raw', [])])}")
     return f"k_hist {g_tbl(c['tbl'])} {g_cm(c['conn'])} {g_hist(c['hist'])}"
 
 
@@ -1033,6 +1055,22 @@ def gen_build_disjoint(rng, vendor):
             "unused": unused, "cyc": False}
 
 
+def add_raw_ports(rng, case, prob):
+    """raw IOPorts (no metadata) created by the design itself: one-bit and wider, one or several, used through an
+    io.Buffer or an Instance before / between / after the requested ports (= at different positions of Design.ports)"""
+    case["raw"] = []
+    if rng.random() < prob:
+        nleaf = sum(len(leaf_paths(node_of(case["tbl"], h[0], h[1]), [])) for h in case["hist"]
+                    if node_of(case["tbl"], h[0], h[1]))
+        for _ in range(rng.choice([1, 1, 2, 3])):
+            pos = rng.choice([0, 0, rng.randrange(0, nleaf + 1), rng.randrange(0, nleaf + 1), nleaf + 2])
+            width = rng.choice([1, 1, 1, 2, 3])
+            # iCE40's get_io_buffer reads the attrs of the metadata unconditionally: only Instances can use a raw port
+            kind = "inst" if case["vendor"] == "ice40" else rng.choice(["buf", "inst"])
+            case["raw"].append([pos, width, kind])
+    return case
+
+
 def small_scope_hists():
     keys = [(0, 0), (1, 0), (2, 0), (2, 1)]
     out = []
@@ -1078,9 +1116,9 @@ def gen_cases(tier, seed):
     NB = 25 if not thorough else 250
     for vendor in VENDORS:
         for i in range(NB):
-            cases.append(gen_build_random(rng, vendor))
+            cases.append(add_raw_ports(rng, gen_build_random(rng, vendor), 0.4))
         for i in range(NB + 10):
-            cases.append(gen_build_disjoint(rng, vendor))
+            cases.append(add_raw_ports(rng, gen_build_disjoint(rng, vendor), 0.65))
     # duplicate (name, number) in the resource table: NameError at construction
     for i in range(12 if not thorough else 100):
         npins = rng.randrange(3, 9)
@@ -1110,6 +1148,8 @@ def classify(c):
             tags.append("rst")
         if c.get("unused"):
             tags.append("unused")
+        if c.get("raw"):
+            tags.append("raw")
         return "build:" + c["vendor"] + ":" + ("+".join(tags) if tags else "plain")
     tags = []
     if c.get("pfx") or prefix_pairs(c["tbl"]):
